@@ -46,6 +46,7 @@ pub fn battery() -> Vec<Op> {
     let p = |ty: Ty, toks: Vec<Tok>| Op {
         kind: OpKind::Parse { ty, toks },
         ticks: [0; 3],
+        slot: None,
     };
     vec![
         // year and month from the clock, day 1
@@ -134,16 +135,18 @@ pub fn battery() -> Vec<Op> {
             Ty::Time,
             vec![tk("HH24", "23", Sem::H24 { n: 23 }), sep(b':'), tk("MI", "59", Sem::Min { n: 59 })],
         ),
-        Op { kind: OpKind::Now { ty: Ty::Date }, ticks: [0; 3] },
-        Op { kind: OpKind::Now { ty: Ty::Timestamp }, ticks: [0; 3] },
-        Op { kind: OpKind::Now { ty: Ty::Oracle }, ticks: [0; 3] },
+        Op { kind: OpKind::Now { ty: Ty::Date }, ticks: [0; 3], slot: None },
+        Op { kind: OpKind::Now { ty: Ty::Timestamp }, ticks: [0; 3], slot: None },
+        Op { kind: OpKind::Now { ty: Ty::Oracle }, ticks: [0; 3], slot: None },
         Op {
             kind: OpKind::FromTime { ty: Ty::Timestamp, time_usecs: 86_399_999_999 },
             ticks: [0; 3],
+            slot: None,
         },
         Op {
             kind: OpKind::FromTime { ty: Ty::Oracle, time_usecs: 43_200_000_001 },
             ticks: [0; 3],
+            slot: None,
         },
     ]
 }
@@ -201,16 +204,22 @@ pub fn sweep_day(
             clk.borrow_mut().stall_reads = u32::MAX;
             if let Some(v) = exec::exec_op(op, 0, &clk, stats, &mut log, &opts, false, Some(&prepared[i])) {
                 clock::uninstall();
+                // the script carries the battery prefix too: a violation may
+                // depend on what earlier operations left behind in the library
+                let mut events = vec![Ev::Stall { reads: u32::MAX }];
+                for prev in battery.iter().take(i + 1) {
+                    events.push(Ev::Op(prev.clone()));
+                }
                 let script = Script {
                     seed,
                     run: day as u64,
                     start_secs: utc,
                     start_nanos: nanos,
                     start_offset: offset,
-                    events: vec![Ev::Stall { reads: u32::MAX }, Ev::Op(op.clone())],
+                    events,
                 };
                 let mut v = v;
-                v.op_index = 1;
+                v.op_index = i + 1;
                 return Some((script, v));
             }
         }
